@@ -59,6 +59,41 @@ Theorem C12_data_and_directives_add_no_edge :
   forall t sfx s e s', adds_no_edge e = true -> step t sfx s e = Ok s' -> a_cfg s' = a_cfg s.
 Proof. exact other_events_add_no_edge. Qed.
 
+(* ===== target-specific operand wrappers (AArch64 :got: / :lo12: / :got_lo12:, MIPS %got / %hi / %lo / %pcrel_hi / %pcrel_lo / %call16) ===== *)
+(* a wrapped operand is the wrapped expression -- same symbol, same addend -- with the wrapper's attributes added ... *)
+Theorem C12_wrapped_operand :
+  forall t s fam k sub br r y s',
+  to_sx t s (MTarget fam k sub) br = Ok (r, y, s') ->
+  exists extra r0, target_attrs fam k = Some extra /\ to_sx_plain t s sub br = Ok (r0, y, s') /\ r = add_attrs extra r0.
+Proof. exact to_sx_wrapper. Qed.
+Theorem C12_wrapper_only_adds_attributes : forall extra e,
+  match e, add_attrs extra e with
+  | SConst c y at_, SConst c' y' at' => c' = c /\ y' = y /\ (forall a, In a at' <-> In a extra \/ In a at_)
+  | SAddr a b, SAddr a' b' => a' = a /\ b' = b
+  | _, _ => False
+  end.
+Proof. exact add_attrs_spec. Qed.
+(* ... and a wrapper the assembler does not know is refused (UnsupportedAssemblyError), before any symbol is created *)
+Theorem C12_unknown_wrapper_is_refused :
+  forall t s fam k sub br, target_attrs fam k = None -> to_sx t s (MTarget fam k sub) br = Err UnsupportedErr.
+Proof. exact to_sx_unknown_wrapper. Qed.
+
+(* without a written @variant the only attribute that appears is PLT, and only on the operand of a direct transfer (the streamer hands
+   `(call || branch) && negb indirect` down: an indirect call through a memory operand is a data reference) to a symbol without
+   definition in a position-independent x86 ELF module *)
+Theorem C12_inferred_attributes : forall t y b l, ref_attrs t 0 y b = Ok l ->
+  (l = [PLT] /\ b = true /\ t_pie t = true /\ exists p, sy_ref y = RProxy p) \/ l = [].
+Proof. exact inferred_plt. Qed.
+
+Example C12_wrapper_example :
+  (* add x0, x0, :lo12:foo  and  lw $t9, %call16(ext)($gp) *)
+  exists r1 y1 s1 r2 y2 s2,
+    to_sx (mk_atarget [(4%nat, RProxy 991)] false false false []) (mk_astate [] None [(0%nat, mk_asym 7 (RBlock 3) false)] [] [] [] [] 10)
+          (MTarget 0 2 (MSym 0 0)) false = Ok (r1, y1, s1) /\ r1 = SConst 0 7 [A_LO12] /\
+    to_sx (mk_atarget [(4%nat, RProxy 991)] false false false []) (mk_astate [] None [] [] [] [] [] 10)
+          (MTarget 1 6 (MSym 4 0)) false = Ok (r2, y2, s2) /\ r2 = SConst 0 1004 [A_GOT].
+Proof. do 6 eexists. repeat split; vm_compute; reflexivity. Qed.
+
 Example C12_nonvacuous :
   (* nop ; L: jmp L ; ret  in .text *)
   match assemble (mk_atarget [] false false false [])
